@@ -73,6 +73,12 @@ Apply(s, e) ==
              steps == [t \in DOMAIN cs |-> [a \in DOMAIN cs[t] |-> [c \in DOMAIN cs[t][a] |-> cs[t][a][c] \div L]]]
              newpos == WrapC([t \in DOMAIN steps |-> FPlus(g[e.i].pos[1], Cum(steps)[t])], N)
          IN <<IF ~exact THEN "harness-drift-not-on-grid" ELSE "ok", Append(g, [g[e.i] EXCEPT !.pos = newpos])>>
+    [] e.act = "ConstructShifted" ->
+         (* a copy of object i with a rigid, time-dependent translation e.g[t] added to every atom *)
+         <<"ok", Append(g, [g[e.i] EXCEPT !.pos = WrapC([t \in DOMAIN g[e.i].pos |-> [a \in DOMAIN g[e.i].pos[t] |-> VPlus(g[e.i].pos[t][a], e.g[t])]], N)])>>
+    [] e.act = "Gauge" ->
+         (* C13: the drift-corrected motion of an object and of its rigidly translated copy are the same *)
+         <<IF Steps(g[e.ci].pos, N) = Steps(g[e.cj].pos, N) THEN "ok" ELSE "corrected-motion-depends-on-rigid-translation", g>>
     [] e.act = "ReadOnly" -> <<"ok", g>>
     [] OTHER -> <<"unknown-action", g>>
 
